@@ -122,7 +122,8 @@ Record M (run : option nat) (s : state) : Prop := {
   m_rs_nodup : forall r, NoDup (rsubs s r);
   m_upward : forall k r, In r (subs s k) -> k < r /\ r < bound s;
   m_ptime : forall k p, ptimes s k = Some p -> p <= clock s;
-  m_etime : forall q n t, In (ERes n t) (q_items (heap s q)) -> t <= clock s
+  m_etime : forall q n t, In (ERes n t) (q_items (heap s q)) -> t <= clock s;
+  m_wait_q : forall tid, status s tid = TWaiting -> t_queue (tasks s tid) <> None
 }.
 
 (* per key, part 1: what depends only on the dicts *)
@@ -222,6 +223,7 @@ Proof.
       intros Hc. destruct (m_noncur0 g Hc) as [H | [_ [H | H]]]; congruence.
     + intros q' n t. fupd_case q' q; ssimpl; eauto.
       intros [H | H]; eauto.
+    + intros tid. fupd_case tid g; ssimpl; auto.
   - (* nobody waits *)
     destruct HM. constructor; ssimpl; auto.
     + intros q' g'. fupd_case q' q; ssimpl; auto.
@@ -640,6 +642,7 @@ Section WithOrd.
       + tauto.
       + intros Hc. apply m_noncur0. intros Hc'. apply Hc.
         fupd_case (t_key (tasks s tid)) k; auto. congruence.
+    - intros tid. fupd_case tid (nt s); ssimpl; auto. discriminate.
   Qed.
 
   Lemma create_task_K : forall run k s k',
@@ -772,7 +775,277 @@ Section WithOrd.
     - exact Htask.
     - intros r Hr. split; auto. ssimpl. rewrite Eb.
       apply (@raise_bound_deps k deps s r). now right.
-    - ssimpl. unfold s1 in Hclk. ssimpl. lia.
+    - unfold s1, s0 in *. ssimpl. lia.
     - ssimpl. lia.
     - auto.
+  Qed.
+
+  (* --------------------------------------------------------------- Delete *)
+
+  Lemma put_event_other : forall q e s q', q' <> q -> heap (put_event q e s) q' = heap s q'.
+  Proof.
+    intros. change (put_event q e s) with (puts e [q] s). apply puts_other.
+    simpl. intros [ | ]; auto.
+  Qed.
+
+  Lemma put_event_getter : forall q e s,
+    q_shut (heap s q) = false -> q_getter (heap (put_event q e s) q) = None.
+  Proof.
+    intros. unfold put_event. rewrite H.
+    destruct (q_getter (heap s q)) as [g | ].
+    - unfold wake. destruct (t_status _); ssimpl; now rewrite fupd_eq.
+    - ssimpl. now rewrite fupd_eq.
+  Qed.
+
+  Lemma kill_q_M : forall run q s, M run s -> M run (kill_q q s).
+  Proof.
+    intros run q s HM. unfold kill_q.
+    destruct (q_shut (heap s q)) eqn:Hs; auto.
+    assert (HM1 : M run (put_event q EKill s)) by (apply put_event_M; auto; discriminate).
+    pose proof (put_event_getter q EKill s Hs) as Hg.
+    set (s1 := put_event q EKill s) in *.
+    destruct HM1. constructor; ssimpl; auto.
+    - intros q' g. fupd_case q' q; ssimpl; auto. rewrite <- m_getter0, Hg. tauto.
+    - intros tid q' H1 H2. fupd_case q' q; ssimpl; eauto.
+    - intros q' n t. fupd_case q' q; ssimpl; eauto.
+  Qed.
+
+  Lemma kill_q_K : forall q s k, queues s k <> Some q -> KInv s k -> KInv (kill_q q s) k.
+  Proof.
+    intros q s k Hq (A & B & C). unfold kill_q.
+    destruct (q_shut (heap s q)) eqn:Hs; [split; auto | ].
+    pose proof (put_event_Mild q EKill s) as F.
+    split; [ | split].
+    - apply KC_same with (s := put_event q EKill s); auto. eapply Mild_KC; eauto.
+    - intros q' Hq'. ssimpl. rewrite (f_queues F) in Hq'.
+      assert (q' <> q) by congruence.
+      rewrite fupd_neq by auto. rewrite put_event_other by auto. auto.
+    - change (Ktask (put_event q EKill s) k). eapply Mild_Ktask; eauto.
+  Qed.
+
+  Definition unregister (k q : nat) (s : state) : state :=
+    upd_queue q (fun Q => mkQ [] (q_shut Q) (q_getter Q))
+              (set_queues (fupd (queues s) k None) s).
+
+  Lemma unregister_M : forall run k q s, M run s -> M run (unregister k q s).
+  Proof.
+    intros run k q s HM. destruct HM. unfold unregister. constructor; ssimpl; auto.
+    - intros q' g. fupd_case q' q; ssimpl; auto.
+    - intros k' q'. fupd_case k' k; eauto. discriminate.
+    - intros k1 k2 q'. fupd_case k1 k; fupd_case k2 k; eauto; discriminate.
+    - intros tid q' H1 H2. fupd_case q' q; ssimpl; eauto.
+    - intros q' n t. fupd_case q' q; ssimpl; eauto. simpl. tauto.
+  Qed.
+
+  Lemma unregister_K : forall run k q s k',
+    M run s -> queues s k = Some q -> k' <> k -> KInv s k' -> KInv (unregister k q s) k'.
+  Proof.
+    intros run k q s k' HM Hq Hk (A & B & C). unfold unregister. split; [ | split].
+    - apply KC_same with (s := s); auto. ssimpl. now rewrite fupd_neq.
+    - intros q'. ssimpl. rewrite fupd_neq by auto. intros Hq'.
+      assert (q' <> q) by (intros ->; apply Hk; eapply (m_qinj HM); eauto).
+      rewrite fupd_neq by auto. auto.
+    - intros tid. ssimpl. rewrite fupd_neq by auto. auto.
+  Qed.
+
+  (* pop the re-preparer from _REPREPARE_TASKS and cancel it *)
+  Lemma popcancel_M : forall k tid s,
+    M None s -> rtasks s k = Some tid ->
+    M None (cancel tid (set_rtasks (fupd (rtasks s) k None) s)).
+  Proof.
+    intros k tid s HM Hr.
+    destruct (m_rt HM _ Hr) as [Hlt Hkey].
+    assert (Hnr : status s tid <> TRunning).
+    { intros H. apply (m_running HM) in H. discriminate. }
+    assert (Hnc : forall tid', tid' <> tid ->
+              fupd (rtasks s) k None (t_key (tasks s tid')) <> Some tid' -> ~ cur s tid').
+    { intros tid' Hne H Hc. apply H. unfold cur in Hc.
+      fupd_case (t_key (tasks s tid')) k; auto. congruence. }
+    unfold cancel. ssimpl.
+    destruct (t_status (tasks s tid)) eqn:Hst; try congruence.
+    - (* TNew *)
+      destruct HM. constructor; ssimpl; auto.
+      + intros tid'. fupd_case tid' tid; ssimpl; auto; try (rewrite m_start0, Hst; tauto).
+      + intros tid'. fupd_case tid' tid; ssimpl; auto; try (rewrite m_wake0, Hst; tauto).
+      + intros tid' H. destruct (m_donecb0 _ H). split; auto.
+        fupd_case tid' tid; ssimpl; auto.
+      + intros tid'. fupd_case tid' tid; ssimpl; auto; try (rewrite <- m_running0, Hst; tauto).
+      + intros tid' Hge. rewrite fupd_neq by lia. auto.
+      + intros q g. fupd_case g tid; ssimpl; auto; try (rewrite m_getter0, Hst; tauto).
+      + intros tid' q. fupd_case tid' tid; ssimpl; eauto.
+      + intros tid' q. fupd_case tid' tid; ssimpl; eauto.
+      + intros k' tid'. fupd_case k' k; [discriminate | ]. intros H.
+        destruct (m_rt0 _ _ H). split; auto. fupd_case tid' tid; ssimpl; auto.
+      + intros tid'. unfold cur. ssimpl. fupd_case tid' tid; ssimpl.
+        * rewrite Hst. auto.
+        * intros Hc. apply m_noncur0. auto.
+      + intros tid'. fupd_case tid' tid; ssimpl; auto.
+    - (* TWaiting: the getter future is cancelled *)
+      destruct (t_queue (tasks s tid)) as [q | ] eqn:Htq;
+        [ | exfalso; eapply (m_wait_q HM); eauto ].
+      destruct HM. constructor; ssimpl; auto.
+      + apply NoDup_snoc; auto. rewrite m_wake0, Hst. discriminate.
+      + intros tid'. rewrite in_snoc. fupd_case tid' tid; ssimpl.
+        * rewrite m_start0, Hst. split; [intros [ | ] | ]; discriminate.
+        * rewrite m_start0. split; [intros [ | ] | ]; auto. discriminate.
+      + intros tid'. rewrite in_snoc. fupd_case tid' tid; ssimpl.
+        * split; auto.
+        * rewrite m_wake0. split; [intros [ | H] | ]; auto. inversion H; congruence.
+      + intros tid'. rewrite in_snoc. intros [H | H]; [ | discriminate].
+        destruct (m_donecb0 _ H). split; auto.
+        fupd_case tid' tid; ssimpl; auto. congruence.
+      + intros tid'. fupd_case tid' tid; ssimpl; auto. split; discriminate.
+      + intros tid' Hge. rewrite fupd_neq by lia. auto.
+      + intros q' g. fupd_case q' q; ssimpl; fupd_case g tid; ssimpl.
+        * split; [discriminate | intros []; discriminate].
+        * split; [discriminate | ]. intros [H1 H2].
+          assert (q_getter (heap s q) = Some g) by (apply m_getter0; auto).
+          assert (q_getter (heap s q) = Some tid) by (apply m_getter0; auto). congruence.
+        * rewrite m_getter0, Hst. split; intros [H1 H2]; congruence.
+        * apply m_getter0.
+      + intros tid' q'. fupd_case tid' tid; ssimpl; eauto.
+      + intros tid' q'. fupd_case tid' tid; ssimpl; [discriminate | ].
+        intros H1 H2. fupd_case q' q; ssimpl; eauto.
+      + intros k' tid'. fupd_case k' k; [discriminate | ]. intros H.
+        destruct (m_rt0 _ _ H). split; auto. fupd_case tid' tid; ssimpl; auto.
+      + intros tid'. unfold cur. ssimpl. fupd_case tid' tid; ssimpl; auto.
+      + intros q' n t. fupd_case q' q; ssimpl; eauto.
+      + intros tid'. fupd_case tid' tid; ssimpl; auto; try discriminate.
+    - (* TWoken *)
+      destruct HM. constructor; ssimpl; auto.
+      + intros tid'. fupd_case tid' tid; ssimpl; auto; try (rewrite m_start0, Hst; tauto).
+      + intros tid'. fupd_case tid' tid; ssimpl; auto; try (rewrite m_wake0, Hst; tauto).
+      + intros tid' H. destruct (m_donecb0 _ H). split; auto.
+        fupd_case tid' tid; ssimpl; auto.
+      + intros tid'. fupd_case tid' tid; ssimpl; auto; try (rewrite <- m_running0, Hst; tauto).
+      + intros tid' Hge. rewrite fupd_neq by lia. auto.
+      + intros q g. fupd_case g tid; ssimpl; auto; try (rewrite m_getter0, Hst; tauto).
+      + intros tid' q. fupd_case tid' tid; ssimpl; eauto.
+      + intros tid' q. fupd_case tid' tid; ssimpl; eauto.
+      + intros k' tid'. fupd_case k' k; [discriminate | ]. intros H.
+        destruct (m_rt0 _ _ H). split; auto. fupd_case tid' tid; ssimpl; auto.
+      + intros tid'. unfold cur. ssimpl. fupd_case tid' tid; ssimpl.
+        * rewrite Hst. auto.
+        * intros Hc. apply m_noncur0. auto.
+      + intros tid'. fupd_case tid' tid; ssimpl; auto.
+    - (* TDone *)
+      destruct HM. constructor; ssimpl; auto.
+      + intros k' tid'. fupd_case k' k; [discriminate | ]. auto.
+      + intros tid'. unfold cur. ssimpl. destruct (Nat.eq_dec tid' tid) as [-> | Hne]; auto.
+  Qed.
+
+  Lemma cancel_frame : forall tid s,
+    let s' := cancel tid s in
+    cache s' = cache s /\ subs s' = subs s /\ queues s' = queues s /\ rtasks s' = rtasks s /\
+    ptimes s' = ptimes s /\
+    (forall q, q_items (heap s' q) = q_items (heap s q) /\ q_shut (heap s' q) = q_shut (heap s q)) /\
+    (forall tid', tid' <> tid -> tasks s' tid' = tasks s tid').
+  Proof.
+    intros. unfold s', cancel.
+    destruct (t_status (tasks s tid)); ssimpl; splits; auto;
+      try (intros tid' Hne; rewrite fupd_neq by auto; reflexivity).
+    - destruct (t_queue (tasks s tid)) as [q' | ]; ssimpl; auto.
+    - destruct (t_queue (tasks s tid)) as [q' | ]; ssimpl; auto.
+    - destruct (t_queue (tasks s tid)) as [q' | ]; ssimpl; auto.
+    - destruct (t_queue (tasks s tid)) as [q' | ]; ssimpl; auto.
+    - destruct (t_queue (tasks s tid)) as [q' | ]; ssimpl; auto.
+    - intros q. destruct (t_queue (tasks s tid)) as [q' | ]; ssimpl; auto.
+      destruct (Nat.eq_dec q q') as [-> | Hne]; [rewrite fupd_eq | rewrite fupd_neq by auto]; auto.
+    - intros tid' Hne. destruct (t_queue (tasks s tid)) as [q' | ]; ssimpl; now rewrite fupd_neq.
+  Qed.
+
+  Lemma popcancel_K : forall k tid s k',
+    M None s -> rtasks s k = Some tid -> k' <> k -> KInv s k' ->
+    KInv (cancel tid (set_rtasks (fupd (rtasks s) k None) s)) k'.
+  Proof.
+    intros k tid s k' HM Hr Hk (A & B & C).
+    pose proof (cancel_frame tid (set_rtasks (fupd (rtasks s) k None) s)) as F.
+    cbv zeta in F. destruct F as (F1 & F2 & F3 & F4 & F5 & F6 & F7).
+    split; [ | split].
+    - apply KC_same with (s := s); auto; try (rewrite ?F1, ?F2, ?F3, ?F5; reflexivity).
+      rewrite F4. ssimpl. now rewrite fupd_neq.
+    - intros q. rewrite F3. intros Hq. destruct (F6 q) as [-> ->]. apply B. exact Hq.
+    - intros tid'. rewrite F4, F3. ssimpl. rewrite fupd_neq by auto. intros H.
+      assert (tid' <> tid).
+      { intros ->. destruct (m_rt HM _ H), (m_rt HM _ Hr). congruence. }
+      rewrite F7 by auto. apply C. exact H.
+  Qed.
+
+  Lemma delete_Inv : forall k s, Inv None s -> Inv None (delete k s).
+  Proof.
+    intros k s [HM HK]. unfold delete.
+    destruct (cache s k) as [e | ] eqn:Hc; [ | split; auto].
+    destruct (HK k) as (A & B & C).
+    destruct (queues s k) as [q | ] eqn:Hq; [ | exfalso; apply (k_cq A); congruence].
+    destruct (B _ Hq) as [Hshut Hnokill].
+    set (s1 := tick s).
+    set (s2 := set_cache (fupd (cache s1) k None) s1).
+    assert (HM2 : M None s2) by (apply set_cache_M, tick_M; auto).
+    assert (HK2 : forall k', k' <> k -> KInv s2 k').
+    { intros k' Hk'. destruct (HK k') as (A' & B' & C').
+      split; [ | split]; [ | exact B' | exact C'].
+      apply KC_same with (s := s); auto. unfold s2. ssimpl. now rewrite fupd_neq. }
+    unfold kill_resource. change (queues s2 k) with (queues s k). rewrite Hq.
+    set (s3 := kill_q q s2).
+    assert (HM3 : M None s3) by (apply kill_q_M; auto).
+    assert (Hother : forall k', k' <> k -> queues s k' <> Some q).
+    { intros k' Hk' H. apply Hk'. eapply (m_qinj HM); eauto. }
+    assert (HK3 : forall k', k' <> k -> KInv s3 k').
+    { intros k' Hk'. apply kill_q_K; auto. apply Hother; auto. }
+    assert (Hctl3 : queues s3 = queues s /\ rtasks s3 = rtasks s /\ bound s3 = bound s /\
+                    subs s3 = subs s /\ cache s3 = cache s2 /\ clock s3 = clock s1 /\
+                    q_shut (heap s3 q) = true).
+    { unfold s3, kill_q. change (q_shut (heap s2 q)) with (q_shut (heap s q)). rewrite Hshut.
+      pose proof (put_event_Mild q EKill s2) as F. ssimpl. rewrite fupd_eq.
+      rewrite (f_queues F), (f_rtasks F), (f_bound F), (f_subs F), (f_cache F), (f_clock F).
+      splits; auto. }
+    destruct Hctl3 as (Eq3 & Er3 & Eb3 & Es3 & Ec3 & Ecl3 & Hshut3).
+    (* deregister *)
+    assert (Hnil : forall B r, In r (@nil nat) -> k < r /\ r < B) by (intros B r Hr; destruct Hr).
+    unfold deregister.
+    rewrite (subscribe_only_to_eq (run := None)) by auto.
+    set (s4 := sub_result k [] s3).
+    assert (HM4 : M None s4) by (apply sub_result_M; auto).
+    assert (HK4 : forall k', k' <> k -> KInv s4 k') by (intros; apply sub_result_K; auto).
+    change (queues s4 k) with (queues s3 k). rewrite Eq3, Hq.
+    assert (Ek4 : kill_q q s4 = s4).
+    { unfold kill_q. change (q_shut (heap s4 q)) with (q_shut (heap s3 q)). now rewrite Hshut3. }
+    rewrite Ek4. fold (unregister k q s4).
+    set (s5 := unregister k q s4).
+    assert (HM5 : M None s5) by (apply unregister_M; auto).
+    assert (HK5 : forall k', k' <> k -> KInv s5 k').
+    { intros k' Hk'. apply (unregister_K (run := None)); auto.
+      change (queues s4 k) with (queues s3 k). now rewrite Eq3. }
+    pose proof (notify_Mild k (clock s1) s5) as F.
+    set (s6 := notify k (clock s1) s5) in *.
+    assert (HM6 : M None (bump k s6)).
+    { apply bump_M, notify_M; auto. unfold s5, unregister, s4, sub_result. ssimpl. rewrite Ecl3. auto. }
+    assert (HK6 : forall k', k' <> k -> KInv (bump k s6) k') by (intros; apply bump_K, notify_K; auto).
+    assert (Ec6 : cache (bump k s6) k = None).
+    { ssimpl. rewrite (f_cache F). unfold s5, unregister, s4, sub_result. ssimpl.
+      rewrite Ec3. unfold s2. ssimpl. apply fupd_eq. }
+    assert (Eq6 : queues (bump k s6) k = None).
+    { ssimpl. rewrite (f_queues F). unfold s5, unregister. ssimpl. apply fupd_eq. }
+    assert (Es6 : subs (bump k s6) k = []).
+    { ssimpl. rewrite (f_subs F). unfold s5, unregister, s4, sub_result. ssimpl. apply fupd_eq. }
+    assert (Er6 : rtasks (bump k s6) = rtasks s).
+    { ssimpl. rewrite (f_rtasks F). unfold s5, unregister, s4, sub_result. ssimpl. auto. }
+    destruct (rtasks (bump k s6) k) as [tid | ] eqn:Hr.
+    - split; [apply popcancel_M; auto | ].
+      intros k'. destruct (Nat.eq_dec k' k) as [-> | Hk']; [ | apply popcancel_K; auto].
+      pose proof (cancel_frame tid (set_rtasks (fupd (rtasks (bump k s6)) k None) (bump k s6))) as G.
+      cbv zeta in G. destruct G as (F1 & F2 & F3 & F4 & F5 & F6 & F7).
+      split; [ | split].
+      + constructor; rewrite ?F1, ?F2, ?F3, ?F4, ?F5; ssimpl; rewrite ?fupd_eq;
+          ssimpl in Ec6; ssimpl in Eq6; ssimpl in Es6; rewrite ?Ec6, ?Eq6, ?Es6; try congruence.
+        all: intros e' E; discriminate.
+      + intros q'. rewrite F3. ssimpl in Eq6. ssimpl. rewrite Eq6. discriminate.
+      + intros tid'. rewrite F4. ssimpl. rewrite fupd_eq. discriminate.
+    - split; auto.
+      intros k'. destruct (Nat.eq_dec k' k) as [-> | Hk']; auto.
+      split; [ | split].
+      + constructor; rewrite ?Ec6, ?Eq6, ?Es6, ?Hr; try congruence.
+        all: intros e' E; discriminate.
+      + intros q'. rewrite Eq6. discriminate.
+      + intros tid'. rewrite Hr. discriminate.
   Qed.
